@@ -2638,7 +2638,7 @@ def _decode_openssh_private(
         key = _make_private(handler, key_params)
         key.set_comment(comment)
         return key
-    except PacketDecodeError:
+    except (PacketDecodeError, UnicodeDecodeError):
         raise KeyImportError('Invalid OpenSSH private key') from None
 
 
@@ -3075,7 +3075,7 @@ def decode_ssh_public_key(data: bytes) -> SSHKey:
         else:
             raise KeyImportError('Unknown key algorithm: ' +
                                  alg.decode('ascii', errors='replace'))
-    except PacketDecodeError:
+    except (PacketDecodeError, UnicodeDecodeError):
         raise KeyImportError('Invalid public key') from None
 
 
